@@ -229,7 +229,7 @@ def parse_items(src, lo, hi):
                     if src.is_p(j, "("):
                         j = src.sig(src.match[j] + 1, hi)
                     continue
-                if w in ("unsafe", "async", "default"):
+                if w in ("unsafe", "async", "default", "open", "closed", "spec", "proof", "exec", "uninterp", "broadcast"):
                     j = src.sig(j + 1, hi)
                     continue
                 if w == "extern":
